@@ -87,3 +87,77 @@ def write_fragments_tile(fragments, value, path, type_field, elements):
 def read_fragment_reply(head46, status, type_field, chunk):
     """SendUnitData reply to Read Tag Fragmented: status 6 = more data follows"""
     return head46 + bytes([0xD2, 0, status, 0]) + type_field + chunk
+
+
+# ------------------------------------------------------------------------------------------ values in controller memory
+def rmw_masks(size, bits):
+    """OR / AND masks of a Read Modify Write that sets bit b to v for every (b, v) in bits (later entries win):
+    the target computes new = (old | or_mask) & and_mask on `size` bytes"""
+    or_mask = 0
+    and_mask = (1 << (8 * size)) - 1
+    for b, v in bits:
+        if v:
+            or_mask = or_mask | (1 << b)
+            and_mask = and_mask | (1 << b)
+        else:
+            or_mask = or_mask & ~(1 << b)
+            and_mask = and_mask & ~(1 << b)
+    return or_mask & ((1 << (8 * size)) - 1), and_mask & ((1 << (8 * size)) - 1)
+
+
+def apply_rmw(old, or_mask, and_mask):
+    return (old | or_mask) & and_mask
+
+
+def logix_string_bytes(capacity, text):
+    """Logix string structure: LEN (DINT) then DATA[capacity] (SINT array), text truncated to the capacity, zero padded"""
+    t = text[:capacity]
+    return le_uint(len(t), 4) + t.encode("iso-8859-1") + bytes(capacity - len(t))
+
+
+def type_field(tag_info):
+    """data type parameter of a write: the CIP type code, or A0 02 + structure handle for structures"""
+    from spec.cip_codec import TYPE_CODES
+    if tag_info["tag_type"] == "struct":
+        return b"\xa0\x02" + le_uint(tag_info["data_type"]["template"]["structure_handle"], 2)
+    for code, name in TYPE_CODES.items():
+        if name == tag_info["data_type_name"]:
+            return le_uint(code, 2)
+    raise ValueError("unknown type")
+
+
+def bool_array_request(index, count):
+    """a BOOL array is stored as DWORDs: reading elements [index, index+count) needs DWORDs 0 .. ceil((index+count)/32)-1
+    (the library reads from DWORD 0); writing needs index to be a multiple of 32"""
+    total = index + count
+    return (total + 31) // 32
+
+
+def udt_bytes(size, members, bits, values):
+    """structure image by template offsets: members = [(name, offset, encoded bytes getter descriptor)], BOOL members live
+    in bit `bit` of the host byte at `offset`; every other byte is zero"""
+    from spec import cip_codec
+    image = [0] * size
+    for name, offset, desc in members:
+        raw = cip_codec.encode(desc, values[name])
+        for k in range(len(raw)):
+            image[offset + k] = raw[k]
+    for name, (offset, bit) in bits.items():
+        if values[name]:
+            image[offset] = image[offset] | (1 << bit)
+        else:
+            image[offset] = image[offset] & ~(1 << bit) & 0xFF
+    return bytes(image)
+
+
+def udt_view(size, members, bits, hidden, data):
+    """visible members of a structure image: typed members at their offsets, BOOL members from their host bits"""
+    from spec import cip_codec
+    out = {}
+    for name, offset, desc in members:
+        if name not in hidden:
+            out[name] = cip_codec.decode(desc, data[offset:size])
+    for name, (offset, bit) in bits.items():
+        if name not in hidden:
+            out[name] = ((data[offset] >> bit) & 1) == 1
+    return out
